@@ -9092,9 +9092,10 @@ func (p *parser) visitStmts(stmts []js_ast.Stmt, kind stmtsKind) []js_ast.Stmt {
 				if hoistedRef, ok := p.hoistedRefForSloppyModeBlockFn[s.Fn.Name.Ref]; ok {
 					// If the hoisted variable was merged into another declaration of
 					// the enclosing function, that declaration must keep the same name
-					// as this function for the hoisting to still work at run time
+					// as this function for the hoisting to still work at run time. The
+					// hoisting also assigns this function to that declaration.
 					for target := p.symbols[hoistedRef.InnerIndex].Link; target != ast.InvalidRef; target = p.symbols[target.InnerIndex].Link {
-						p.symbols[target.InnerIndex].Flags |= ast.MustNotBeRenamed
+						p.symbols[target.InnerIndex].Flags |= ast.MustNotBeRenamed | ast.CouldPotentiallyBeMutated
 					}
 
 					// Merge the two identifiers back into a single one
